@@ -996,18 +996,32 @@ func ruleBND3(c *Ctx) {
 			return true
 		})
 	}
+	// functions that exist only with the feature (declared wholly inside a region): their bodies
+	// are region code, a `return` in them leaves only themselves, and region code may call them
+	regionFuncs := map[types.Object]bool{}
+	for _, f := range ti.AllFiles {
+		for _, d := range f.Decls {
+			if fd, ok := d.(*ast.FuncDecl); ok && fd.Body != nil && inRegion(fd) {
+				regionFuncs[info.Defs[fd.Name]] = true
+			}
+		}
+	}
 	for _, f := range ti.AllFiles {
 		for _, d := range f.Decls {
 			fd, ok := d.(*ast.FuncDecl)
 			if !ok || fd.Body == nil {
 				continue
 			}
+			wholeFn := regionFuncs[info.Defs[fd.Name]]
 			ast.Inspect(fd.Body, func(n ast.Node) bool {
 				st, ok := n.(ast.Stmt)
 				if !ok || !inRegion(st) {
 					return true
 				}
 				nStmts++
+				if _, isRet := st.(*ast.ReturnStmt); isRet && wholeFn {
+					return true
+				}
 				construct := fmt.Sprintf("template/%s/bounds-block", fd.Name.Name)
 				switch x := st.(type) {
 				case *ast.ReturnStmt:
@@ -1048,6 +1062,9 @@ func ruleBND3(c *Ctx) {
 					return true
 				}
 				if tv, ok := info.Types[call.Fun]; ok && tv.IsType() {
+					return true
+				}
+				if fn := calleeFunc(info, call); fn != nil && regionFuncs[fn.Origin()] {
 					return true
 				}
 				c.bad(rule, fmt.Sprintf("template/%s/bounds-block/call(%s)", fd.Name.Name, name), ti.Pos(call.Pos()), "a bounds-only block calls %s, which may have effects beyond the bounds", name)
